@@ -42,8 +42,16 @@ func (e *Enc) loopHeader(b *ssa.BasicBlock, li *loopInfo, st *State) {
 	li.preState = st.clone()
 	// 3. havoc
 	ws := e.loopWrites(li)
+	if ws.ghost["held:*"] {
+		ws.roots["lockstate"] = true
+	}
 	if ws.all {
 		e.havocAll(st, "loop body")
+		if ws.ghost["held:*"] {
+			only := newWriteSet()
+			only.roots["lockstate"] = true
+			e.havocRoots(st, only, false)
+		}
 	} else {
 		e.havocRoots(st, ws, false)
 		e.havocKeys(st, ws, li)
@@ -54,6 +62,9 @@ func (e *Enc) loopHeader(b *ssa.BasicBlock, li *loopInfo, st *State) {
 	for k := range st.ghost {
 		if strings.HasPrefix(k, "g:") && !ws.ghost[k] {
 			continue // ghost variables change only through ghost-at / callee modifies
+		}
+		if strings.HasPrefix(k, "b:anyheld:") && !ws.ghost["held:*"] {
+			continue // no lock operation in the loop
 		}
 		if ws.ghost[k] || ws.all || strings.HasPrefix(k, "iter:") && ws.ghost[k] {
 			sortName := "Int"
@@ -629,12 +640,14 @@ func (e *Enc) callWrites(c *ssa.CallCommon) *writeSet {
 		}
 	}
 	for _, a := range c.Args {
-		ts = append(ts, a.Type())
 		if mc, ok := a.(*ssa.MakeClosure); ok {
-			if cf, ok := mc.Fn.(*ssa.Function); ok {
+			if cf, ok := mc.Fn.(*ssa.Function); ok && len(cf.Blocks) > 0 {
+				// a closure literal: what it can write is what its body writes
 				ws.add(e.funcBodyWrites(cf, map[*ssa.Function]bool{}))
+				continue
 			}
 		}
+		ts = append(ts, a.Type())
 	}
 	seen := map[types.Type]bool{}
 	for _, t := range ts {
@@ -651,7 +664,8 @@ func (e *Enc) funcBodyWrites(f *ssa.Function, seen map[*ssa.Function]bool) *writ
 		return ws
 	}
 	seen[f] = true
-	sub := &Enc{P: e.P, DB: e.DB, fn: f, key: FuncKey(f), ctr: e.DB.Funcs[FuncKey(f)]}
+	sub := NewEnc(e.P, e.DB, f)
+	sub.hkeys = e.hkeys
 	for _, b := range f.Blocks {
 		for _, ins := range b.Instrs {
 			switch ins := ins.(type) {
@@ -913,6 +927,11 @@ func (e *Enc) havocAll(st *State, why string) {
 		old.heap[k] = v
 	}
 	st.heap = map[string]string{}
+	for k, v := range old.heap {
+		if strings.HasPrefix(k, "lockstate/") {
+			st.heap[k] = v
+		}
+	}
 	st.rootEpoch = map[string]int{}
 	st.epoch = e.newEpoch()
 	e.bumpAllVer(st)
@@ -1183,6 +1202,7 @@ func (e *Enc) execLookup(ins *ssa.Lookup, st *State) {
 		e.vals[ins] = e.strIndex(x.term(), e.val(ins.Index).term(), ins.Type(), ins.Pos())
 		return
 	}
+	e.guardMapOp(ins.X, st, ins.Pos(), "map read")
 	m := ins.X.Type().Underlying().(*types.Map)
 	var vt types.Type = m.Elem()
 	if !mapKeyOK(m) {
@@ -1221,6 +1241,7 @@ func (e *Enc) execLookup(ins *ssa.Lookup, st *State) {
 func (e *Enc) execMapUpdate(ins *ssa.MapUpdate, st *State) {
 	m := ins.Map.Type().Underlying().(*types.Map)
 	x := e.val(ins.Map)
+	e.guardMapOp(ins.Map, st, ins.Pos(), "map write")
 	if e.opts.Safe["nilmap"] {
 		e.oblige("safe.nilmap", "", "(not (= "+x.term()+" 0))", ins.Pos(), "assignment to entry in nil map")
 	}
@@ -1230,6 +1251,7 @@ func (e *Enc) execMapUpdate(ins *ssa.MapUpdate, st *State) {
 	}
 	k := e.val(ins.Key).term()
 	v := e.val(ins.Value)
+	e.markPublished(v)
 	e.escapeCheck(ins.Value, v, "stored in map")
 	has, ln, vals := e.mapKeys(m)
 	ref := x.term()
@@ -1245,6 +1267,9 @@ func (e *Enc) execMapUpdate(ins *ssa.MapUpdate, st *State) {
 
 func (e *Enc) execRange(ins *ssa.Range, st *State) {
 	x := e.val(ins.X)
+	if _, isMap := ins.X.Type().Underlying().(*types.Map); isMap {
+		e.guardMapOp(ins.X, st, ins.Pos(), "map iteration")
+	}
 	it := &iterState{X: x, Key: "iter:" + ins.Name()}
 	switch ins.X.Type().Underlying().(type) {
 	case *types.Basic:
@@ -1322,6 +1347,9 @@ func (e *Enc) execNext(ins *ssa.Next, st *State) {
 // ---------- concurrency-related instructions (sequential abstraction) ----------
 
 func (e *Enc) execSelect(ins *ssa.Select, st *State) {
+	if e.ctr != nil && e.ctr.Opts["nonblocking"] == "on" && ins.Blocking {
+		e.oblige("nonblock", "", "false", ins.Pos(), "select without default can block")
+	}
 	v := e.freshVal("sel", ins.Type(), true)
 	n := len(ins.States)
 	lo := "0"
@@ -1339,6 +1367,22 @@ func (e *Enc) execSelect(ins *ssa.Select, st *State) {
 }
 
 func (e *Enc) execSend(ins *ssa.Send, st *State) {
+	e.markPublished(e.val(ins.X))
+	if e.ctr != nil && e.ctr.Opts["nonblocking"] == "on" {
+		// a plain send blocks unless the channel is a buffered channel made by this
+		// call that still has room
+		var alts []string
+		ch := e.val(ins.Chan).term()
+		for ref, room := range e.chanRoom {
+			if room > 0 {
+				alts = append(alts, "(= "+ch+" "+ref+")")
+			}
+		}
+		e.oblige("nonblock", "", sOr(alts...), ins.Pos(), "send cannot block: the channel is a fresh buffered channel with room")
+		for ref := range e.chanRoom {
+			e.chanRoom[ref]--
+		}
+	}
 	e.chanSendHook(ins.Chan, ins.X, "true", ins.Pos(), st)
 	e.escapeCheck(ins.X, e.val(ins.X), "sent on channel")
 	e.afterBlockingOp(st, "send")
@@ -1378,6 +1422,55 @@ func (e *Enc) havocShared(st *State, what string) {
 
 func (e *Enc) execGo(ins *ssa.Go, st *State) {
 	e.fireAssertAtCall(&ins.Call, ins.Pos(), st, true)
+	defer func() {
+		for _, a := range ins.Call.Args {
+			e.markPublished(e.val(a))
+		}
+		e.markPublished(e.val(ins.Call.Value))
+	}()
+	// the spawned function's preconditions are owed by the go statement (this is how
+	// a held lock is handed over to a goroutine)
+	{
+		c := &ins.Call
+		key, fn := e.calleeKey(c)
+		var cinfo *closureInfo
+		if mc, ok := c.Value.(*ssa.MakeClosure); ok {
+			cinfo = e.val(mc).Closure
+		} else if fv, ok := e.vals[c.Value]; ok && fv.Closure != nil {
+			cinfo = fv.Closure
+			if key == "" {
+				fn = cinfo.Fn
+				key = FuncKey(fn)
+			}
+		}
+		if ctr := e.DB.Funcs[key]; ctr != nil && len(ctr.Requires) > 0 {
+			env := map[string]envEntry{}
+			var args []*Val
+			for _, a := range c.Args {
+				args = append(args, e.val(a))
+			}
+			if fn != nil {
+				for i, p := range fn.Params {
+					if i < len(args) {
+						env[p.Name()] = envEntry{V: args[i]}
+					}
+				}
+				if cinfo != nil {
+					for i, fv := range fn.FreeVars {
+						if i < len(cinfo.Bindings) {
+							_, isPtr := fv.Type().Underlying().(*types.Pointer)
+							env[fv.Name()] = envEntry{V: cinfo.Bindings[i], IsAddr: isPtr}
+						}
+					}
+				}
+			}
+			e.callOrd[key]++
+			for i, rq := range ctr.Requires {
+				f := e.evalBoolCtx(rq, &specCtx{env: env, st: st, old: st, pkg: ctr.Pkg})
+				e.oblige("pre", fmt.Sprintf("pre@go:%s.%d#%d", ShortKey(key), e.callOrd[key], i+1), f, ins.Pos(), "precondition of the spawned "+ShortKey(key)+": "+rq.Src)
+			}
+		}
+	}
 	ws := e.callWrites(&ins.Call)
 	_ = ws
 	// the new goroutine runs concurrently: its effects are covered by the
@@ -1388,7 +1481,6 @@ func (e *Enc) execGo(ins *ssa.Go, st *State) {
 }
 
 func (e *Enc) execDefer(ins *ssa.Defer, st *State) {
-	e.fireAssertAtCall(&ins.Call, ins.Pos(), st, true)
 	// arguments are evaluated now
 	var args []*Val
 	for _, a := range ins.Call.Args {
